@@ -87,15 +87,15 @@ func vpC17Check(t *rapid.T, l *vpLedger, where string) {
 
 func TestVP_C17_supply(t *testing.T) {
 	c := kit.New(t, "C17", "rapid: finalized histories (10..60 actions: deposits, transfers with fan-in/out, withdrawal submits/claims, mints, node removals, pledges and accepts, batched snapshots, already-final transactions finalized again on other chains, spends naming one output under index and index+256*j whose admission - if any - is carried through to finalization) over 3 assets on a real store; after every finalization the recorded total must equal the model (genesis+deposits+mints-submits) and the UTXO-prefix scan of outputs not consumed by a finalized tx, within [0,capacity]; non-trivial = history with a spend of a deposit-derived output and a submit; distinct by last tx hash")
-	c.Require("has-submit", "has-spend", "has-mint", "has-claim", "has-remove", "has-batch", "has-refinalize", "has-pledge", "has-accept", "capacity-crossing-refused", "alias-index-spend-offered", "submit-with-trailing-odd-output-offered")
+	c.Require("has-submit", "has-spend", "has-mint", "has-claim", "has-remove", "has-batch", "has-refinalize", "has-pledge", "has-accept", "capacity-crossing-refused", "alias-index-spend-offered", "submit-with-trailing-odd-output-offered", "unbalanced-transfer-offered")
 	kit.SetChecks(kit.N(100, 4000))
 	rapid.Check(t, func(t *rapid.T) {
 		l := vpLNewLedger(7, "c17", 6)
 		defer l.Close()
 		steps := rapid.IntRange(10, 60).Draw(t, "steps")
-		var nsub, nspend, nmint, nclaim, nremove, nbatch, nrefin, npledge, naccept, ncross, nalias, nodd int
+		var nsub, nspend, nmint, nclaim, nremove, nbatch, nrefin, npledge, naccept, ncross, nalias, nodd, nunbal int
 		for i := 0; i < steps; i++ {
-			k := rapid.IntRange(0, 16).Draw(t, "kind")
+			k := rapid.IntRange(0, 17).Draw(t, "kind")
 			fin := rapid.IntRange(0, 2).Draw(t, "fin") != 0
 			switch {
 			case i < 2 || k <= 2:
@@ -132,6 +132,40 @@ func TestVP_C17_supply(t *testing.T) {
 				if l.StepRefinalize(t) != nil {
 					nrefin++
 				}
+			case k == 17:
+				// A transfer whose outputs add up to more (or less) than its inputs.
+				// Admission refuses both; whatever it lets through is finalized and
+				// judged by the supply check.
+				p := l.DrawSpendOf(t, 2, 1, true)
+				if p == nil || p.Sum.Cmp(big.NewInt(10)) < 0 {
+					continue
+				}
+				delta := big.NewInt(int64(rapid.SampledFrom([]int{1, 5, -1, 1000000}).Draw(t, "imbalance")))
+				total := new(big.Int).Add(p.Sum, delta)
+				parts := vpLSplit(t, total, 2, "unbalanced_part")
+				tx := l.BuildSpend(p.Asset, p.Ins, []vpLOut{{Type: common.OutputTypeScript, Owners: []int{0}, Threshold: 1, Amount: vpLInt(parts[0])},
+					{Type: common.OutputTypeScript, Owners: []int{1}, Threshold: 1, Amount: vpLInt(parts[1])}}, nil, nil)
+				ver := l.SignMaps(tx, p.Ins, p.Signers)
+				nunbal++
+				if err := ver.Validate(l.Store, l.Tick(1000), false); err != nil {
+					continue
+				}
+				if err := ver.LockInputs(l.Store, false); err != nil {
+					continue
+				}
+				if err := l.Store.WriteTransaction(ver); err != nil {
+					continue
+				}
+				snap := l.MakeSnapshot(rapid.IntRange(0, 6).Draw(t, "unbalanced_chain"), []crypto.Hash{ver.PayloadHash()}, l.Tick(1000))
+				var werr error
+				if pan := vpLCatch(func() { werr = l.Store.WriteSnapshot(snap, l.NodeIds) }); pan != nil || werr != nil {
+					continue
+				}
+				t.Logf("a transfer whose outputs differ from its inputs by %s units was admitted and finalized", delta)
+				l.noteAdmitted(ver, "transfer")
+				l.Topo = snap.TopologicalOrder + 1
+				l.Snapshots = append(l.Snapshots, snap)
+				l.applyFinal(ver.PayloadHash(), snap.Hash)
 			case k == 16:
 				// A withdrawal submit carrying, after its change output, a further
 				// output of a type that is not materialized as an unspent output
@@ -293,7 +327,7 @@ func TestVP_C17_supply(t *testing.T) {
 			}
 		}
 		var cl []string
-		for name, n := range map[string]int{"has-submit": nsub, "has-spend": nspend, "has-mint": nmint, "has-claim": nclaim, "has-remove": nremove, "has-batch": nbatch, "has-refinalize": nrefin, "has-pledge": npledge, "has-accept": naccept, "capacity-crossing-refused": ncross, "alias-index-spend-offered": nalias, "submit-with-trailing-odd-output-offered": nodd} {
+		for name, n := range map[string]int{"has-submit": nsub, "has-spend": nspend, "has-mint": nmint, "has-claim": nclaim, "has-remove": nremove, "has-batch": nbatch, "has-refinalize": nrefin, "has-pledge": npledge, "has-accept": naccept, "capacity-crossing-refused": ncross, "alias-index-spend-offered": nalias, "submit-with-trailing-odd-output-offered": nodd, "unbalanced-transfer-offered": nunbal} {
 			if n > 0 {
 				cl = append(cl, name)
 			}
